@@ -26,7 +26,8 @@ theorem initArgs_total (H : OHyp E rank Good) {B r : Nat} (Lw : Low E rank r B) 
     cases n with
     | zero => simp at hn
     | succ n =>
-      have hpre' : Below E rank (Call.bound rank (.initArgs (si :: v) acc : Call U π)) s := hpre
+      have hpre' : Below E rank (Call.bound rank (.initArgs (si :: v) acc : Call U π)) s := hpre.1
+      have hdel : s.deleted = [] := hpre.2
       have hrk' : rank si < Call.bound rank (.initArgs (si :: v) acc : Call U π) := by
         show rank si < max (rank si + 1) _; omega
       have hbv : ∀ m, Call.bound rank (.initArgs v (acc ++ [m]) : Call U π) ≤
@@ -34,7 +35,7 @@ theorem initArgs_total (H : OHyp E rank Good) {B r : Nat} (Lw : Low E rank r B) 
         intro m
         show _ ≤ max (rank si + 1) _
         exact Nat.le_max_right _ _
-      have hipre : OPre E rank (.initNT si) s := ⟨hpre'.mono (Nat.le_of_lt hrk'), hpre' si hrk'⟩
+      have hipre : OPre E rank (.initNT si) s := ⟨hpre'.mono (Nat.le_of_lt hrk'), hpre' si hrk', fun _ => hdel⟩
       obtain ⟨s1, hs1⟩ := Lw.initNT si (hrk si List.mem_cons_self) (hrows si List.mem_cons_self) n s
         (by simp at hn; omega) hbase hc hipre
       have hi' := (big_of_run E n).2.2.2.2.1 _ _ _ hs1
@@ -44,8 +45,9 @@ theorem initArgs_total (H : OHyp E rank Good) {B r : Nat} (Lw : Low E rank r B) 
       have hbel1 := hpre'.merge hfr1' hst1 (fun sj => hkept1 sj (by simp [Call.inner])) a1 a2
       obtain ⟨m, e1, e2⟩ := a2.1.first
       have hc1 := (big_cacheC E hk hi' hc).1
+      have hdel1 : s1.deleted = [] := by rw [big_deleted E hi' hk]; exact hdel
       obtain ⟨res, hres⟩ := initArgs_total H Lw v (acc ++ [m]) n s1 (by simp at hn; omega) hbase1 hc1
-        (hbel1.mono (hbv m)) (fun a ha => hrk a (List.mem_cons_of_mem _ ha)) (fun a ha => hrows a (List.mem_cons_of_mem _ ha))
+        ⟨hbel1.mono (hbv m), hdel1⟩ (fun a ha => hrk a (List.mem_cons_of_mem _ ha)) (fun a ha => hrows a (List.mem_cons_of_mem _ ha))
       refine ⟨res, ?_⟩
       simp only [initArgs, hs1, e1]
       exact hres
@@ -84,12 +86,16 @@ theorem initAlts_total (H : OHyp E rank Good) {L Al A : Nat} (T : THyp E L Al A)
       have hA := T.arity nt P v w hm
       have hbound : Call.bound rank (.initArgs v [] : Call U π) ≤ rank nt :=
         bound_le_of_forall rank v _ (H.acyclic nt P v w hm)
-      obtain ⟨⟨s1, arguments⟩, hs1⟩ := initArgs_total H Lw v [] n s (by simp at hn; omega) hbase hc (hpre.1.mono hbound)
-        (H.acyclic nt P v w hm) (T.closed nt P v w hm)
+      obtain ⟨⟨s1, arguments⟩, hs1⟩ := initArgs_total H Lw v [] n s (by simp at hn; omega) hbase hc
+        ⟨hpre.1.mono hbound, hpre.2.2⟩ (H.acyclic nt P v w hm) (T.closed nt P v w hm)
       have ha := (big_of_run E n).2.2.2.2.2.2.2 _ _ _ _ _ hs1
-      have hpostA := big_order H ha hbase trivial trivial (hpre.1.mono hbound)
+      have hpostA := big_order H ha hbase trivial trivial ⟨hpre.1.mono hbound, hpre.2.2⟩
       obtain ⟨⟨s3, pr⟩, hs3⟩ := altPrio_total H hbase hc hm ha hpostA
-      obtain ⟨r1, r2, r3, r4, _⟩ := alt_step H (best := best) hbase hpre.1 hpre.2 hm ha hpostA hs3
+      obtain ⟨r1, r2, r3, r4, _⟩ := alt_step H (best := best) hbase hpre.1 hpre.2.1 hm ha hpostA hs3
+      have hdel4 : St.deleted { s3 with maxRule := AList.insert (nt, P, v) (.node P arguments) s3.maxRule } = [] := by
+        show s3.deleted = []
+        have e1 : s3.deleted = s1.deleted := by obtain ⟨c, hc'⟩ := computePrio_step E hs3; rw [hc']
+        rw [e1, big_deleted E ha hk]; exact hpre.2.2
       have hc3 : CacheC { s3 with maxRule := AList.insert (nt, P, v) (.node P arguments) s3.maxRule } := by
         have hc1 := (big_cacheC E hk ha hc).1
         obtain ⟨_, hg⟩ := computePrio_cache E hs3
@@ -106,7 +112,7 @@ theorem initAlts_total (H : OHyp E rank Good) {L Al A : Nat} (T : THyp E L Al A)
           intro bu hbu
           subst hbu
           exact initAlts_total H T Lw P rest _ n _ (by simp at hn; omega) r1 hc3
-            ⟨fun vw hvw => hspre.1 vw (List.mem_cons_of_mem _ hvw), bestUpd_der E nt best _ pr hspre.2 r4⟩ ⟨r2, r3⟩
+            ⟨fun vw hvw => hspre.1 vw (List.mem_cons_of_mem _ hvw), bestUpd_der E nt best _ pr hspre.2 r4⟩ ⟨r2, r3, hdel4⟩
         exact key _ (by cases best <;> rfl)
 
 theorem initRules_total (H : OHyp E rank Good) {L Al A : Nat} (T : THyp E L Al A) {B : Nat} {nt : UNT U}
@@ -133,8 +139,9 @@ theorem initRules_total (H : OHyp E rank Good) {L Al A : Nat} (T : THyp E L Al A
       obtain ⟨a1, a2, _⟩ := big_order H ha hbase hpreA trivial hpre
       have hc1 := (big_cacheC E hk ha hc).1
       have hpreR : SPre E (.initRules nt rest best1) := ⟨fun x hx => hspre.1 x (List.mem_cons_of_mem _ hx), hb1⟩
+      have hdel1 : s1.deleted = [] := by rw [big_deleted E ha hk]; exact hpre.2.2
       obtain ⟨res, hres⟩ := initRules_total H T Lw hAl rest best1 n s1 (fun x hx => hsub x (List.mem_cons_of_mem _ hx))
-        (by simp at hn; omega) hbase1 hc1 hpreR ⟨a1, a2⟩
+        (by simp at hn; omega) hbase1 hc1 hpreR ⟨a1, a2, hdel1⟩
       exact ⟨res, by simp only [initRules, hs1]; exact hres⟩
 
 theorem foldl_push_ne_nil {α : Type} (lt : α → α → Bool) (x : α) (l : List α) :
@@ -144,7 +151,7 @@ theorem foldl_push_ne_nil {α : Type} (lt : α → α → Bool) (x : α) (l : Li
   rw [h] at this
   simp at this
 
-theorem initNT_total (H : OHyp E rank Good) {L Al A : Nat} (T : THyp E L Al A) {B : Nat} {nt : UNT U}
+theorem initNT_total (H : OHyp E rank Good) (hnf : ∀ p, E.filter p = true) {L Al A : Nat} (T : THyp E L Al A) {B : Nat} {nt : UNT U}
     (Lw : Low E rank (rank nt) B) (n : Nat) (s : St U π) (hn : B + L + Al + A + 5 ≤ n) (hbase : Base E s) (hc : CacheC s)
     (hpre : OPre E rank (.initNT nt) s) (hrow : ∃ rs, AList.lookup nt E.G.rules = some rs) :
     ∃ s', initNT E n s nt = some s' := by
@@ -158,7 +165,8 @@ theorem initNT_total (H : OHyp E rank Good) {L Al A : Nat} (T : THyp E L Al A) {
     · simp only [hinit, Bool.false_eq_true, if_false]
       obtain ⟨rs, hrs⟩ := hrow
       simp only [hrs]
-      obtain ⟨h1, h2⟩ := hpre
+      obtain ⟨h1, h2, _⟩ := hpre
+      have hdel : s.deleted = [] := hbase.nodel hnf
       have hu : Uninit s nt := by
         rcases h2 with hu | hf
         · exact hu
@@ -166,7 +174,7 @@ theorem initNT_total (H : OHyp E rank Good) {L Al A : Nat} (T : THyp E L Al A) {
       have hbase0 : Base E { s with initS := s.initS ++ [nt] } :=
         ⟨⟨hbase.sinv.cache_ok, hbase.sinv.heap_prio, hbase.sinv.heap_seen, hbase.sinv.seen_der, hbase.sinv.succ_seen,
           hbase.sinv.keys_ok, hbase.sinv.maxNT_ok, hbase.sinv.maxRule_ok, hbase.sinv.start_ok⟩,
-         hbase.ninv.congr (fun _ => rfl) (fun _ => rfl) (fun _ => rfl) rfl, hbase.hinv, hbase.nodel⟩
+         hbase.ninv.congr (fun _ => rfl) (fun _ => rfl) (fun _ => rfl) rfl, hbase.hinv, hbase.delF⟩
       have hmid0 : Mid { s with initS := s.initS ++ [nt] } nt := by
         refine ⟨?_, hu.2.1, hu.2.2.1, hu.2.2.2⟩
         show (s.initS ++ [nt]).contains nt = true
@@ -177,10 +185,10 @@ theorem initNT_total (H : OHyp E rank Good) {L Al A : Nat} (T : THyp E L Al A) {
       have hc0 : CacheC { s with initS := s.initS ++ [nt] } := hc.congr (fun _ => rfl) (CacheGrow.refl _)
       have hL := T.rows_len nt rs hrs
       obtain ⟨⟨s1, best⟩, hs1⟩ := initRules_total H T Lw (by rw [hrs]; exact T.alts_len nt rs hrs) rs none n _
-        (by rw [hrs]; exact fun x hx => hx) (by omega) hbase0 hc0 hpre1 ⟨hbel0, hmid0⟩
+        (by rw [hrs]; exact fun x hx => hx) (by omega) hbase0 hc0 hpre1 ⟨hbel0, hmid0, hdel⟩
       have hr := (big_of_run E n).2.2.2.2.2.1 _ _ _ _ _ _ hs1
       obtain ⟨hbase1, hst1, _, _, hbest, _⟩ := big_all H hr hbase0 hpre1 trivial
-      obtain ⟨a1, a2, a3⟩ := big_order H hr hbase0 hpre1 trivial ⟨hbel0, hmid0⟩
+      obtain ⟨a1, a2, a3⟩ := big_order H hr hbase0 hpre1 trivial ⟨hbel0, hmid0, hdel⟩
       obtain ⟨items, hph⟩ := a3 [] [] (phase1_nil E _ nt) (by rw [List.nil_append]; exact H.flat_nodup nt rs hrs)
       simp only [List.nil_append] at hph
       have hc1 := (big_cacheC E hk hr hc0).1
@@ -207,7 +215,7 @@ theorem initNT_total (H : OHyp E rank Good) {L Al A : Nat} (T : THyp E L Al A) {
       have hbase2 : Base E { s1 with maxNT := AList.insert nt b.1 s1.maxNT } := by
         refine ⟨⟨hbase1.sinv.cache_ok, hbase1.sinv.heap_prio, hbase1.sinv.heap_seen, hbase1.sinv.seen_der,
           hbase1.sinv.succ_seen, hbase1.sinv.keys_ok, ?_, hbase1.sinv.maxRule_ok, hbase1.sinv.start_ok⟩,
-          hbase1.ninv.congr (fun _ => rfl) (fun _ => rfl) (fun _ => rfl) rfl, hbase1.hinv, hbase1.nodel⟩
+          hbase1.ninv.congr (fun _ => rfl) (fun _ => rfl) (fun _ => rfl) rfl, hbase1.hinv, hbase1.delF⟩
         intro nt' m hl
         rw [AList.lookup_insert] at hl
         split at hl
@@ -225,11 +233,11 @@ theorem initNT_total (H : OHyp E rank Good) {L Al A : Nat} (T : THyp E L Al A) {
       have hs3' : initPush E { s1 with maxNT := AList.insert nt b.1 s1.maxNT } nt
           (rs.flatMap fun r => r.2.map fun vw => (r.1, vw.1)) = some s3 := hs3
       simp only [hs3']
-      obtain ⟨hbase3, hn3, ho3, hst3⟩ := ntinv_after_initPush H a2 hph hs3 hbase2 (mem_flatOf_of_alts hrs)
+      obtain ⟨hbase3, hn3, ho3, hst3, _⟩ := ntinv_after_initPush H a2 hph hs3 hbase2 (mem_flatOf_of_alts hrs)
       have hbel3 : Below E rank (rank nt) s3 := a1.only ho3 hst3 (Nat.le_refl _)
       have hc3 := (CacheC.initPush E hk nt _ hc2 hs3).1
-      obtain ⟨res, hres⟩ := queryInited_total H T Lw n s3 none (by omega) hbase3 hc3 hn3.1.init
-        ⟨hbel3, Or.inr hn3, by intro k hk'; cases hk'⟩
+      obtain ⟨res, hres⟩ := queryInited_total H hnf T Lw n s3 none (by omega) hbase3 hc3 hn3.1.init
+        ⟨hbel3, Or.inr hn3, (by intro k hk'; cases hk'), fun _ => hbase3.nodel hnf⟩
       rw [hres]
       exact ⟨_, rfl⟩
 
@@ -237,7 +245,7 @@ theorem Low.mono {B r r' : Nat} (h : Low E rank r B) (hr : r' ≤ r) : Low E ran
   ⟨fun si hsi => h.query si (by omega), fun si hsi => h.initNT si (by omega)⟩
 
 /-- **every `query` and every `__init_non_terminal__` returns** with fuel (rank + 1) · (L + Al + A + 6) -/
-theorem low_all (H : OHyp E rank Good) {L Al A : Nat} (T : THyp E L Al A) :
+theorem low_all (H : OHyp E rank Good) (hnf : ∀ p, E.filter p = true) {L Al A : Nat} (T : THyp E L Al A) :
     ∀ r, Low E rank r (r * (L + Al + A + 6)) := by
   intro r
   induction r with
@@ -248,17 +256,17 @@ theorem low_all (H : OHyp E rank Good) {L Al A : Nat} (T : THyp E L Al A) :
     · intro si hsi hrow n s p hn hbase hc hpre
       have Lw : Low E rank (rank si) (r * (L + Al + A + 6)) := ih.mono (by omega)
       by_cases hinit : s.initS.contains si = true
-      · exact queryInited_total H T Lw n s p (by omega) hbase hc hinit hpre
+      · exact queryInited_total H hnf T Lw n s p (by omega) hbase hc hinit hpre
       · cases n with
         | zero => omega
         | succ n =>
-          obtain ⟨h1, h2, h3⟩ := hpre
+          obtain ⟨h1, h2, h3, h4⟩ := hpre
           have hu : Uninit s si := by
             rcases h2 with hu | hn2
             · exact hu
             · exact absurd hn2.1.init hinit
-          have hipre : OPre E rank (.initNT si) s := ⟨h1, Or.inl hu⟩
-          obtain ⟨s1, hs1⟩ := initNT_total H T Lw n s (by omega) hbase hc hipre hrow
+          have hipre : OPre E rank (.initNT si) s := ⟨h1, Or.inl hu, h4⟩
+          obtain ⟨s1, hs1⟩ := initNT_total H hnf T Lw n s (by omega) hbase hc hipre hrow
           have hi' := (big_of_run E n).2.2.2.2.1 _ _ _ hs1
           obtain ⟨hbase1, hst1, _, _, _, _⟩ := big_all H hi' hbase trivial trivial
           obtain ⟨a1, a2⟩ := big_order H hi' hbase trivial trivial hipre
@@ -269,10 +277,10 @@ theorem low_all (H : OHyp E rank Good) {L Al A : Nat} (T : THyp E L Al A) :
           | some q => exact ⟨_, rfl⟩
           | none =>
             simp only
-            exact popLoop_total H T Lw n s1 p (by omega) hbase1 hc1 hl
-              ⟨a1, ⟨a2.1, a2.2.2⟩, fun k hk' => (h3 k hk').mono hst1⟩
+            exact popLoop_total H hnf T Lw n s1 p (by omega) hbase1 hc1 hl
+              ⟨a1, ⟨a2.1, a2.2.2⟩, fun k hk' => (h3 k hk').mono hst1, fun e0 => absurd e0 a2.2.1⟩
     · intro si hsi hrow n s hn hbase hc hpre
       have Lw : Low E rank (rank si) (r * (L + Al + A + 6)) := ih.mono (by omega)
-      exact initNT_total H T Lw n s (by omega) hbase hc hpre hrow
+      exact initNT_total H hnf T Lw n s (by omega) hbase hc hpre hrow
 
 end PS.UHS
